@@ -147,7 +147,7 @@ pub fn profile(id: &str) -> Option<Profile> {
         "C04" => (Kind::Crash, 600, 20_000),
         "C05" => (Kind::Crash, 600, 20_000),
         "C12" => (Kind::Crash, 240, 15_000),
-        "C17" => (Kind::Fault, 150, 4_000),
+        "C17" => (Kind::Fault, 500, 12_000),
         "C09" => (Kind::Conformance, 3000, 150_000),
         "C14" => (Kind::Malformed, 20_000, 1_000_000),
         "C19" => (Kind::Backends, 200, 5_000),
@@ -164,6 +164,9 @@ pub fn profile(id: &str) -> Option<Profile> {
     };
     if p.kind == Kind::Crash {
         crate::crashrun::crash_gen(&mut p);
+    }
+    if p.kind == Kind::Fault {
+        crate::faultrun::fault_gen(&mut p);
     }
     Some(p)
 }
@@ -250,7 +253,8 @@ impl RunOut {
             j["case"] = json!({
                 "cfg": self.cfg,
                 "steps": self.steps_list,
-                "sched": self.sched,
+                "sched": if self.sched.is_empty() { Value::Null } else { json!(self.sched) },
+                "extra": self.extra,
             });
         }
         if let Some(s) = &self.sample {
